@@ -22,6 +22,7 @@ import itertools
 import json
 import math
 import multiprocessing as mp
+import os
 import sys
 from fractions import Fraction as F
 
@@ -760,8 +761,12 @@ JOBS = {"pairs": job_pairs, "randpairs": job_randpairs, "matrices": job_matrices
 def run_job(spec):
     args, name, params = spec
     rep = Report(PROP, args, "", "")
+    if os.environ.get("C16_TIMING"):
+        print("start", name, params, file=sys.stderr, flush=True)
     try:
         JOBS[name](rep, *params)
+        if os.environ.get("C16_TIMING"):
+            print("done %.1fs" % rep.elapsed(), name, params, file=sys.stderr, flush=True)
     except Exception as e:  # noqa: BLE001
         import traceback
         return {"crash": "%s%r: %s" % (name, params, traceback.format_exc()[-1500:])}
